@@ -158,6 +158,18 @@ fn explore(ctx: &Ctx) -> Outcome {
                 t.violate(format!("after-failed-calls:{}", sig), summary.chars().take(500).collect::<String>(), cj);
             }
         }
+        // ... and EACH SINGLE call of the series immediately before a representative content
+        for i in 0..props::poison::count() {
+            let c = &reps[i % reps.len()];
+            props::poison::single_call(i);
+            t.cases += 1;
+            t.nontrivial += 1;
+            if let Some((sig, summary)) = judge(c, &mut t, 3, 2, 1) {
+                let mut cj = binfam::describe(c);
+                cj["after_single_call"] = json!(i);
+                t.violate(format!("after-single-call:{}", sig), summary.chars().take(500).collect::<String>(), cj);
+            }
+        }
         layers.push(json!({"family": "a fixed series of failing parses / failing serializations / odd strings on the same thread right before the case", "cases": reps.len(), "completed": true}));
         total.absorb(t);
     }
@@ -246,6 +258,10 @@ fn replay(ctx: &Ctx, case: &Value) -> Vec<Violation> {
     let c = binfam::content_from_json(case);
     let (max_calls, _, _) = params(ctx.tier);
     let mut t = Tally::new();
+    if let Some(i) = case["after_single_call"].as_u64() {
+        props::poison::single_call(i as usize);
+        return judge(&c, &mut t, 3, 2, 1).map(|(sig, summary)| vec![Violation { sig: format!("after-single-call:{}", sig), summary, case: case.clone() }]).unwrap_or_default();
+    }
     if case["after_failed_calls"].as_bool().unwrap_or(false) {
         props::poison::failing_calls();
         return judge(&c, &mut t, 3, 2, 1).map(|(sig, summary)| vec![Violation { sig: format!("after-failed-calls:{}", sig), summary, case: case.clone() }]).unwrap_or_default();
